@@ -16,6 +16,7 @@ def check(tree, rep, tier='quick', seed=0):
     R.k1_success_condition(core, rep)    # success => nothing demanded is left unmet (first sentence of the property)
     R.k12_schedule_once(core, rep)
     R.k12c_who_calls(core, rep)
+    R.k2_signal_discipline(core, rep)    # no handler on the solve path turns a failing line into a silently missing one
     R.k24_tracker_shape(core, rep, parts=('a', 'b'))   # a registered waiter is never dropped: its line would be missing from a 'solved' return
     R.k13_add_form(core, rep)
     R.k14_solution_lists_all(core, rep)
